@@ -147,7 +147,8 @@ static int runC17(const std::string& tier, const std::string& scratch, const std
 }
 
 // ---- C09 (ii): typed setters over every (type, dimension vector, data size) ---------------------------------
-static int runSetterTable(const std::string& tier, const std::string& out) {
+static int runSetterTable(const std::string& tier, const std::string& out, const std::string& transcript) {
+    FILE* tf = transcript.empty() ? nullptr : fopen(transcript.c_str(), "w");
     bool thorough = tier == "thorough"; size_t maxProd = thorough ? 24 : 8; size_t maxLen = thorough ? 7 : 4;
     std::vector<std::vector<size_t>> shapes; shapes.push_back({});
     std::function<void(std::vector<size_t>&)> rec = [&](std::vector<size_t>& cur) {
@@ -166,6 +167,7 @@ static int runSetterTable(const std::string& tier, const std::string& out) {
         Outcome oc = guarded([&] { if (type == 0) p.set(iv, sh); else if (type == 1) p.set(fv, sh); else p.set(sv, sh); });
         PSnap after = snapParam(p); const char* tn = type == 0 ? "int" : type == 1 ? "float" : "string"; std::string cs = std::string(tn) + " dims=" + shapeText(sh) + " size=" + std::to_string(n);
         if (samples.size() < 8 && evals % 997 == 1) samples.push_back(cs + " -> " + outcomeName(oc));
+        if (tf) { std::string t; dumpParam(t, after); fprintf(tf, "%s -> %s %s\n", cs.c_str(), outcomeName(oc), hashStr(t).hex().c_str()); }
         auto add = [&](const std::string& sig) { auto it = viol.find(sig); if (it == viol.end()) viol[sig] = {sig, cs, 1}; else it->second.count++; };
         if (expectOk) {
             accepted++;
@@ -182,6 +184,7 @@ static int runSetterTable(const std::string& tier, const std::string& out) {
         }
     }
     auto jstr = [](const std::string& s) { std::string o = "\""; for (unsigned char ch : s) { if (ch == '"' || ch == '\\') { o += '\\'; o += (char)ch; } else o += (char)ch; } return o + "\""; };
+    if (tf) fclose(tf);
     FILE* f = out.empty() ? stdout : fopen(out.c_str(), "w");
     fprintf(f, "{\n \"tier\": %s, \"shapes\": %zu, \"evaluations\": %zu, \"expected_accept\": %zu, \"expected_refuse\": %zu,\n \"samples\": [", jstr(tier).c_str(), shapes.size(), evals, accepted, refused);
     for (size_t i = 0; i < samples.size(); ++i) fprintf(f, "%s%s", i ? ", " : "", jstr(samples[i]).c_str());
@@ -191,11 +194,11 @@ static int runSetterTable(const std::string& tier, const std::string& out) {
 }
 
 int main(int argc, char** argv) {
-    std::string mode = "c17", tier = "quick", scratch, out, one; int workers = 16;
+    std::string mode = "c17", tier = "quick", scratch, out, one, transcript; int workers = 16;
     for (int i = 1; i < argc; ++i) { std::string a = argv[i]; auto nxt = [&]() { return std::string(argv[++i]); };
-        if (a == "--mode") mode = nxt(); else if (a == "--tier") tier = nxt(); else if (a == "--scratch") scratch = nxt(); else if (a == "--out") out = nxt(); else if (a == "--case") one = nxt(); else if (a == "--workers") workers = atoi(nxt().c_str()); else { fprintf(stderr, "unknown arg %s\n", a.c_str()); return 2; } }
+        if (a == "--mode") mode = nxt(); else if (a == "--tier") tier = nxt(); else if (a == "--scratch") scratch = nxt(); else if (a == "--out") out = nxt(); else if (a == "--case") one = nxt(); else if (a == "--workers") workers = atoi(nxt().c_str()); else if (a == "--transcript") transcript = nxt(); else { fprintf(stderr, "unknown arg %s\n", a.c_str()); return 2; } }
     if (scratch.empty()) scratch = "/dev/shm/ezc3d-verif-misc." + std::to_string(getpid()); mkdir(scratch.c_str(), 0755);
     if (mode == "c17") return runC17(tier, scratch, out, one, workers);
-    if (mode == "setters") return runSetterTable(tier, out);
+    if (mode == "setters") return runSetterTable(tier, out, transcript);
     return 2;
 }
